@@ -34,6 +34,17 @@ PartialDeep ==
     IN UNION {{Dec(p0, <<Dec(p1, <<Lf(1), Missing>>), Dec(p2, <<Lf(2), Lf(3)>>)>>), Dec(p0, <<Dec(p1, <<Missing, Lf(1)>>), Dec(p2, <<Lf(2), Lf(3)>>)>>),
                Dec(p0, <<Dec(p2, <<Lf(2), Lf(3)>>), Dec(p1, <<Lf(1), Missing>>)>>), Dec(p0, <<Dec(p2, <<Lf(2), Lf(3)>>), Dec(p1, <<Missing, Lf(1)>>)>>)}
               : p0 \in PredSet(PG), p1 \in PredSet(PG), p2 \in PredSet(PG)}
+\* K = 4 elimination: a partial two-row decision P (two of its four labels present: a terminal and a one-child decision F) below a
+\* one-row root - forwarding P would drop a predicate that inputs can still fail
+PartialK4 ==
+    LET tm == CHOOSE a \in TermSet(TF) : TRUE
+        Lf(k) == Leaf([tm EXCEPT !.b = [i \in 1..Len(tm.b) |-> IF i = 1 THEN 10 * k ELSE tm.b[i]]])
+        one == {p \in PredSet("pp2n") : Len(p.m) = 1}
+        two == {p \in PredSet("pp2n") : Len(p.m) = 2}
+        Kids4(a, x, b, y) == [j \in 1..4 |-> IF j = a THEN x ELSE IF j = b THEN y ELSE Missing]
+        Slots == {ab \in (1..4) \X (1..4) : ab[1] # ab[2]}
+    IN UNION {{Dec(p0, <<Lf(0), Dec(p1, Kids4(ab[1], Lf(1), ab[2], Dec(q, Kids4(l, Lf(2), 0, Missing)))), Missing, Missing>>)
+                  : ab \in Slots, l \in 1..2} : p0 \in one, p1 \in two, q \in one}
 \* reduce: every total tree shape with exactly n decisions (one predicate, terminals from two functions): unbalanced trees in which
 \* a decision that cannot be merged precedes, in the reverse breadth-first sweep, one that can
 RECURSIVE FullN(_, _, _)
@@ -42,6 +53,7 @@ FullN(n, pr, ts) == IF n = 0 THEN {Leaf(a) : a \in ts}
 FullTrees == LET ts == TermSet(TF)  t1 == CHOOSE a \in ts : TRUE  t2 == CHOOSE a \in ts \ {t1} : TRUE
              IN FullN(3 + NG, CHOOSE x \in PredSet(PF) : TRUE, {t1, t2})          \* NG = 1: 4 decisions, NG = 2: 5 decisions
 FSet == TreesN(NF, PredSet(PF), TermSet(TF), K) \cup (IF MODE = "reduce" /\ NG >= 1 THEN CascadeTrees \cup FullTrees ELSE {})
+        \cup (IF MODE = "prune" /\ K = 4 THEN PartialK4 ELSE {})
 GSetAll == TreesN(NG, PredSet(PG), TermSet(TG), K)
 \* "arithdeep": deep total right operands (paths of different length below the grafted root), + and - only
 \* unbalanced total operands: one branch of the root is one level deeper than the other (both orientations), every predicate from PG
@@ -78,7 +90,7 @@ Init == stage = "init" /\ f = None /\ g = None /\ h = None /\ op = "" /\ aff = N
 
 PickF == \E x \in FSet, lay \in LAYOUTS :
     /\ stage = "init"
-    /\ ~(lay \in {"hole", "low"} /\ (x.t # "D" \/ ScriptOf(x, K, lay) = ScriptOf(x, K, "dfs")))
+    /\ ~(lay \in {"hole", "holed", "low"} /\ (x.t # "D" \/ ScriptOf(x, K, lay) = ScriptOf(x, K, "dfs")))
     /\ f' = [abs |-> x, lay |-> lay, t |-> BuildTree(x, K, lay)]
     /\ stage' = "f" /\ UNCHANGED <<g, h, op, aff, sched, hist>>
 \* in the pruning modes the leaves of the right operand are made pairwise different (see DistinctLeaves)
@@ -117,11 +129,13 @@ ApplyAff == \E o \in Ops, a \in TermSet(TG) :
     /\ stage' = "done" /\ UNCHANGED <<f, g, sched, hist>>
 
 \* regions (C09): the tree itself is observed; a schedule "n" x |tree| with skip_subtree after the positions of S
-SchedOf(n, S) == LET RECURSIVE G(_) G(j) == IF j > n THEN <<>> ELSE <<"n">> \o (IF j \in S THEN <<"s">> ELSE <<>>) \o G(j + 1) IN G(1)
-ApplyRegions == \E S \in SUBSET (1..(IF stage = "f" THEN Cardinality(Occ(f.t)) ELSE 0)) :
+\* dbl: skip_subtree is called twice in a row at the positions of S (a repeated call must not skip anything more)
+SchedOf(n, S, dbl) == LET RECURSIVE G(_) G(j) == IF j > n THEN <<>> ELSE <<"n">> \o (IF j \in S THEN (IF dbl THEN <<"s", "s">> ELSE <<"s">>) ELSE <<>>) \o G(j + 1) IN G(1)
+ApplyRegions == \E S \in SUBSET (1..(IF stage = "f" THEN Cardinality(Occ(f.t)) ELSE 0)), dbl \in BOOLEAN :
     /\ stage = "f" /\ MODE = "regions"
     /\ Cardinality(S) <= NG                       \* NG = maximal number of skip positions in this mode
-    /\ op' = "regions" /\ h' = f.t /\ sched' = SchedOf(Cardinality(Occ(f.t)), S)
+    /\ (dbl => S # {})
+    /\ op' = "regions" /\ h' = f.t /\ sched' = SchedOf(Cardinality(Occ(f.t)), S, dbl)
     /\ stage' = "done" /\ UNCHANGED <<f, g, aff, hist>>
 
 \* C11: LP faults as environment actions: any set of at most NG faulty LP calls (position x kind) during the elimination
